@@ -62,8 +62,8 @@ func c11Templates(r interface{ IntN(int) int }) (*ref.Node, []string, []*gen.Ty)
 	L := ref.Id("l")
 	idx := ref.Bin("%", ref.Static("abs", a), ref.Int(5))
 	var body *ref.Node
-	switch k := r.IntN(14); k {
-	case 10, 11, 12, 13:
+	switch k := r.IntN(16); k {
+	case 10, 11, 12, 13, 14, 15:
 		// a constant map (folded into one object shared by all evaluations) of 1..45 entries - sizes around every
 		// representation threshold - that is looked into by key only at run time
 		n := []int{1, 2, 7, 8, 9, 16, 19, 20, 21, 22, 25, 32, 33, 45}[r.IntN(14)]
@@ -91,8 +91,13 @@ func c11Templates(r interface{ IntN(int) int }) (*ref.Node, []string, []*gen.Ty)
 			body = ref.ListN(ref.Method(M, "isAvail", key), ref.Bin("~", key, M), ref.Method(M, "get", key), ref.Member(M, "k0"))
 		case 12:
 			body = ref.ListN(ref.Method(M, "get", key), ref.Method(M, "size"), ref.Method(ref.Method(M, "list"), "size"))
-		default:
+		case 13:
 			body = ref.Method(ref.Method(M, "put", ref.Str("new"), a), "get", key)
+		case 14:
+			// nothing looks into the constant before run time: the map reaches its reader as a closure argument
+			body = ref.Bin("+", ref.Call(ref.Clo([]string{"q"}, ref.Method(ref.Id("q"), "get", key)), M), ref.Int(1))
+		default:
+			body = ref.ListN(ref.Bin("~", key, M), ref.Call(ref.Clo([]string{"q", "w"}, ref.Bin("~", ref.Id("w"), ref.Id("q"))), M, key))
 		}
 		return ref.Let("m", m, body), []string{"a"}, []*gen.Ty{gen.TInt}
 	case 9:
